@@ -180,7 +180,10 @@ DISPENSO_REQUIRES(ForEachFunc<F, Iter>)
 void for_each_n(TaskSetT& tasks, Iter start, size_t n, F&& f, ForEachOptions options = {}) {
   // TODO(bbudge): With options.maxThreads, we might want to allow a small fanout factor in
   // recursive case?
-  if (!n || !options.maxThreads || detail::PerPoolPerThreadInfo::isParForRecursive(&tasks.pool())) {
+  // A zero-thread pool with wait == false has nobody to run scheduled chunks (and would ask the static
+  // chunking for zero chunks): run serially on the caller in that case too.
+  if (!n || !options.maxThreads || detail::PerPoolPerThreadInfo::isParForRecursive(&tasks.pool()) ||
+      (tasks.numPoolThreads() == 0 && !options.wait)) {
     for (size_t i = 0; i < n; ++i) {
       f(*start);
       ++start;
